@@ -16,7 +16,8 @@ META = {
     "rule": (
         "programs: the two shipped (grammar, generated module) pairs -- tasks/xonsh.gram -> peg_parser/parser.py via tasks/generator.py, and "
         "pegen/metagrammar.gram -> pegen/grammar_parser.py via python -m pegen.  Each is regenerated into a temp dir in fresh interpreters "
-        "under PYTHONHASHSEED in {0, 1, 5 seed-derived values} (thorough: 40) and twice under the same hash seed.  Oracle: (a) all regenerated "
+        "under PYTHONHASHSEED in {0, 1, 5 seed-derived values} (thorough: 40) and twice under the same hash seed.  For three hash seeds (thorough: all) the "
+        "generation is also run three times inside one interpreter (module imported once, main() called again): each output must equal the fresh one.  Oracle: (a) all regenerated "
         "outputs are byte-identical; (b) shipped vs regenerated: same class, same set of rule methods, and per method the same decorators, "
         "parameters and body AST (positions, formatting, comments, a trailing ';' and return annotations ignored), same KEYWORDS/SOFT_KEYWORDS, "
         "same module-level non-import statements, shipped imports a subset of the generated ones.  A case = one (pair, rule method) "
@@ -40,6 +41,26 @@ def generate(pair: str, hashseed: int, outdir: str) -> tuple[str | None, str]:
         return None, (p.stderr or p.stdout)[-600:]
     with open(out, encoding="utf-8") as f:
         return f.read(), ""
+
+
+REPEAT = {
+    "xonsh": "import sys, pathlib\nimport tasks.generator as g\nfor o in sys.argv[2:]:\n    g.main(pathlib.Path(o), pathlib.Path(sys.argv[1]) / 'tasks' / 'xonsh.gram')\n",
+    "meta": "import sys, os\nimport pegen.__main__ as m\nroot = sys.argv[1]\nfor o in sys.argv[2:]:\n    sys.argv = ['pegen', os.path.join(root, 'pegen', 'metagrammar.gram'), '-o', o, '-q']\n    m.main()\n",
+}
+
+
+def generate_repeatedly(pair: str, hashseed: int, outdir: str, times: int = 3):
+    """run the generation `times` times inside ONE interpreter (the module imported once); -> (list of texts | None, stderr)"""
+    outs = [os.path.join(outdir, f"{pair}-rep{k}.py") for k in range(times)]
+    env = dict(os.environ, PYTHONHASHSEED=str(hashseed), PYTHONPATH=REPO, PYTHONDONTWRITEBYTECODE="1")
+    p = subprocess.run([sys.executable, "-c", REPEAT[pair], REPO, *outs], cwd=REPO, env=env, capture_output=True, text=True, timeout=900)
+    if p.returncode != 0 or not all(os.path.exists(o) for o in outs):
+        return None, (p.stderr or p.stdout)[-600:]
+    texts = []
+    for o in outs:
+        with open(o, encoding="utf-8") as f:
+            texts.append(f.read())
+    return texts, ""
 
 
 class _Strip(ast.NodeTransformer):
@@ -99,6 +120,16 @@ def check(rec, case):
             rec.case(case, False)
             rec.fail(case, f"nondeterministic-same-hashseed:{pair}", {"hashseed": h})
             return
+        if case.get("repeat"):
+            # the generator is a library too: a second and third run in the same interpreter give the same file
+            reps, err = generate_repeatedly(pair, h, outdir)
+            if reps is None:
+                rec.fail(case, f"generator-failed-when-run-repeatedly:{pair}", {"stderr": err})
+                return
+            for k, t in enumerate(reps):
+                if t != gen1:
+                    rec.fail(case, f"output-depends-on-earlier-generation-in-process:{pair}", {"run": k + 1, "hashseed": h, "length": [len(gen1), len(t)]})
+                    return
     finally:
         shutil.rmtree(outdir, ignore_errors=True)
     ref = _REFS.get(pair)
@@ -158,5 +189,5 @@ def search(rec, ctx):
                 _REFS[pair], _ = generate(pair, 0, outdir)
             finally:
                 shutil.rmtree(outdir, ignore_errors=True)
-        check(rec, {"pair": pair, "hashseed": h})
+        check(rec, {"pair": pair, "hashseed": h, "repeat": h in seeds[:3] or ctx.thorough})
     rec.notes["hash_seeds"] = seeds[:8]
